@@ -224,9 +224,23 @@ func (w *world) content() dual {
 	nl := 1 + r.IntN(7)
 	hasNeedle := false
 	for li := 0; li < nl; li++ {
-		k := r.IntN(8)
+		k := r.IntN(10)
 		if li == nl-1 && !hasNeedle {
 			k = 1 + r.IntN(5)
+		}
+		// boundary holds n bytes: ASCII with a rune of 1..4 bytes (or a stray byte) at
+		// one end, so that the 100-byte cut of the text before / after a match
+		// (LimitPre / LimitPost) falls before, inside and after a multi-byte rune
+		boundary := func(n int, runeLast bool) string {
+			edge := []string{"a", "é", "€", "😀", "\xff", "\xa9"}[r.IntN(6)]
+			if n < len(edge) {
+				n = len(edge)
+			}
+			fill := strings.Repeat("ab c", n)[:n-len(edge)]
+			if runeLast {
+				return fill + edge
+			}
+			return edge + fill
 		}
 		pad := func() dual {
 			if r.IntN(3) == 0 {
@@ -261,6 +275,12 @@ func (w *world) content() dual {
 			hasNeedle = true
 		case 6, 7:
 			parts = append(parts, cslot())
+		case 8: // exactly 96..104 bytes after the match, the line ends there
+			parts = append(parts, lit(w.filler(r.IntN(8))+" "+needle+" "+boundary(95+r.IntN(9), true)))
+			hasNeedle = true
+		case 9: // exactly 96..104 bytes before the match
+			parts = append(parts, lit(boundary(95+r.IntN(9), false)+" "+needle+" "+w.filler(r.IntN(8))))
+			hasNeedle = true
 		}
 		if li < nl-1 || r.IntN(2) == 0 {
 			parts = append(parts, lit("\n"))
@@ -583,8 +603,8 @@ func (w *world) dump() any {
 	type dd struct{ Name, Content, Lang string }
 	type rr struct {
 		Name, URL, FileURLTemplate, LineFragmentTemplate, CommitURLTemplate string
-		Branches                                                           [][2]string
-		Docs                                                               []dd
+		Branches                                                            [][2]string
+		Docs                                                                []dd
 	}
 	q := func(s string) string {
 		if len(s) > 700 {
